@@ -555,6 +555,11 @@ func (g *G) forStmt(d int) []*gen.Node {
 	if g.pct("compoundinc", 40) {
 		inc = gen.NAssign("+=", []*gen.Node{gen.NIdent(iv)}, []*gen.Node{gen.NInt(1)})
 	}
+	if g.Probes && g.pct("observable-clause", 50) {
+		// the loop clause leaves a record each time it is executed
+		g.Feat["for-observable-loop-clause"] = true
+		inc = gen.NAssign("=", []*gen.Node{gen.NIdent(iv)}, []*gen.Node{gen.NCall("pval", gen.NBin("+", gen.NIdent(iv), gen.NInt(1)))})
+	}
 	if shape&1 != 0 {
 		init = gen.NSet(iv, gen.NInt(0))
 	} else {
@@ -569,6 +574,10 @@ func (g *G) forStmt(d int) []*gen.Node {
 	}
 	if shape&2 != 0 {
 		cond = gen.NBin("<", gen.NIdent(iv), gen.NInt(bound))
+		if g.Probes && g.pct("observable-cond", 30) {
+			g.Feat["for-observable-condition"] = true
+			cond = gen.NBin("<", gen.NCall("pval", gen.NIdent(iv)), gen.NInt(bound))
+		}
 	} else {
 		limit := bound
 		if shape&4 == 0 {
